@@ -656,6 +656,17 @@ pub fn roots(thorough: bool) -> Vec<Root> {
     // long horizon: twelve deliveries exercise the timing-statistics path (10 chunks) with stats on
     out.push(Root { v0: 998, s0: 50, deliveries_horizon: 14, with_stats: true, bound: 1, ..base.clone() });
     out.push(Root { v0: 999, s0: 48, deliveries_horizon: 14, with_stats: true, regime: 1, bound: 0, ..base.clone() });
+    // long fault-free (and single-fault) runs inside one volume, with and without the statistics
+    // channel: the timing window fills (11th sample of one key), statistics are flushed every 11
+    // chunks, counters grow past ten
+    for with_stats in [false, true] {
+        out.push(Root { v0: 500, s0: 2, deliveries_horizon: 34, with_stats, bound: if thorough { 1 } else { 0 }, ..base.clone() });
+        out.push(Root { v0: 2, s0: 20, deliveries_horizon: 30, with_stats, regime: 1, bound: 0, ..base.clone() });
+    }
+    // two volume boundaries in one run (998/54 -> 999 -> 1), 62 deliveries
+    for with_stats in [false, true] {
+        out.push(Root { v0: 998, s0: 54, deliveries_horizon: 62, with_stats, bound: 0, next_present: if with_stats { 2 } else { 1 }, ..base.clone() });
+    }
     // discovery faults (only panic / hang / fidelity judged)
     for (v0, s0) in [(500usize, 30usize), (999, 55), (1, 1)] {
         out.push(Root { v0, s0, discovery_faults: true, bound: 1, ..base.clone() });
